@@ -152,6 +152,10 @@ func c20Run(x *vrt.X, sc c20Scenario, hashes map[string]uint64, info *prom.Confi
 					vrt.Yield("between-updates")
 					e.UpdateTargets(all(names...))
 					mark(o.Readded, "t1")
+				case "reload-keep":
+					// a reload that keeps the job (the configuration is parsed afresh, as on SIGHUP)
+					same, _ := pipe.LoadInfo(c17Cfg("A"))
+					_ = e.ApplyConfig(same)
 				case "reload-drop":
 					other, _ := pipe.LoadInfo(c17Cfg("B"))
 					_ = e.ApplyConfig(other)
@@ -372,7 +376,7 @@ func init() {
 			for _, w := range []int{1, 2} {
 				for _, f1 := range []int{0, 1, 2, 99} {
 					for _, gets := range []int{1, 2, 3} {
-						for _, disc := range []string{"none", "keep", "remove", "readd", "reload-drop"} {
+						for _, disc := range []string{"none", "keep", "reload-keep", "remove", "readd", "reload-drop"} {
 							f2s := []int{0}
 							if nt == 2 {
 								f2s = []int{0, 1}
